@@ -173,8 +173,8 @@ static const char *vec_diff(const vec_t *a,const vec_t *b){
 }
 
 /* ------------------------------------------------------------------ exploration state */
-enum { B_FRESH=0, B_ONEFRAME, B_RESET, NBASE };
-static const char *const BNAME[NBASE]={"fresh","after-one-20ms-frame","after-frame+reset"};
+enum { B_FRESH=0, B_ONEFRAME, B_RESET, B_MONO, NBASE };   /* B_MONO (stereo encoders only): the one frame was coded mono (FORCE_CHANNELS 1 for that frame, AUTO again afterwards): the coded channel count differs from the created one */
+static const char *const BNAME[NBASE]={"fresh","after-one-20ms-frame","after-frame+reset","after-one-20ms-frame-coded-mono"};
 #define UNSET INT_MIN+7
 typedef struct { uint64_t key; unsigned char depth, reset; op_t hist[3]; opus_int32 M[NSETS]; } node_t;
 
@@ -209,6 +209,7 @@ static int in_domain(const setreq *r,opus_int32 x){
 }
 static int classify(const obj_t *o,int base,int reset,int s,opus_int32 x){
    const setreq *r=&SETS[s];
+   if (base==B_MONO) base=B_ONEFRAME;
    if (!(r->types&type_of_kind(o->kind))) return C_ANY;       /* the header documents the request for the other object type only */
    if (r->dom==D_ANY) return C_ANY;
    if (s==S_BITRATE){
@@ -225,6 +226,7 @@ static int classify(const obj_t *o,int base,int reset,int s,opus_int32 x){
 /* acceptable values of the matching getter after an accepted SET; returns count, -1 = no definite expectation */
 static int readback_set(const obj_t *o,int base,int reset,int s,opus_int32 x,opus_int32 *cand){
    int n=0;
+   if (base==B_MONO) base=B_ONEFRAME;
    if (s!=S_BITRATE){ cand[0]=x; return 1; }
    if (o->kind==K_ENC){
       int F[2],nf=0,i;
@@ -332,8 +334,10 @@ static void make_base(obj_t *o,int base){
    pcm=malloc(sizeof(short)*n*(o->ch>8?o->ch:8)*2);
    if (IS_ENCTYPE(o->kind)){
       sig_init(&g,SIG_SPEECH,o->Fs,o->ch,1); sig_gen(&g,pcm,n);
+      if (base==B_MONO && ctl_i(o,OPUS_SET_FORCE_CHANNELS_REQUEST,1)!=OPUS_OK){ fprintf(stderr,"base: force mono failed\n"); exit(2); }
       len=obj_encode(o,pcm,n,pkt,sizeof pkt);
       if (len<=0){ fprintf(stderr,"base encode failed %d\n",len); exit(2); }
+      if (base==B_MONO){ if ((len>0&&(pkt[0]&4)) || ctl_i(o,OPUS_SET_FORCE_CHANNELS_REQUEST,OPUS_AUTO)!=OPUS_OK){ fprintf(stderr,"base: mono frame not mono\n"); exit(2); } }
    } else {
       obj_t e=*o; e.p=NULL; e.kind = o->kind==K_DEC?K_ENC:o->kind==K_MSDEC?K_MSENC:K_PROJENC; e.app=OPUS_APPLICATION_AUDIO; e.family=-1;
       if (o->kind==K_MSDEC){ int i; e.ch=o->streams+o->coupled; for(i=0;i<e.ch;i++) e.mapping[i]=i; }
@@ -387,7 +391,7 @@ static void run_item(long itemno,void *unused){
    obj_destroy(&o);
 }
 
-static void add_item(obj_t o){ int b; for(b=0;b<NBASE;b++){ ITEMS[nitems].o=o; ITEMS[nitems].base=b; nitems++; } }
+static void add_item(obj_t o){ int b; for(b=0;b<NBASE;b++){ if(b==B_MONO&&!(o.kind==K_ENC&&o.ch==2)) continue; ITEMS[nitems].o=o; ITEMS[nitems].base=b; nitems++; } }
 
 int main(int argc,char **argv){
    static const int FS[5]={8000,12000,16000,24000,48000}; static const int APPS[3]={OPUS_APPLICATION_VOIP,OPUS_APPLICATION_AUDIO,OPUS_APPLICATION_RESTRICTED_LOWDELAY};
